@@ -464,6 +464,9 @@ def check_c02(prog, rep, tier, cfg):
     # otherwise two lines are re-indented as one and the second keeps its old indentation (shared with C12.e)
     import strings as _strings
     _strings.check_c12(prog, _Alias(rep, [("C12.e", r".", "C02.l")]), tier, cfg)
+    # C02.n — a conditional directive ends where its expression ends (shared with C13.f): cut at the first `}` of a nested comment or literal,
+    # its tail is scanned and formatted as code (breaks and blanks inside the directive, `AND` lower-cased, a stray quote absorbing code)
+    _lx.c13f(prog, _Alias(rep, [("C13.f", r".", "C02.n")]))
     # C02.m — what the user re-scans is the file pasfmt wrote: the formatted text reaches it through the encoder of the file's encoding
     # only (one byte per character after a UTF-16 BOM re-scans to other tokens altogether).  Shared with C17.c.
     import orch as _orch
